@@ -1,6 +1,6 @@
 package block
 
-var zzC02Len = 3
+var zzC02Len = 2
 var zzC02SymbolicDA = true
 
 // clean_restart: are the parts delivered before the stop offered again after it (quick: no; thorough: either)
